@@ -2,6 +2,7 @@ package props
 
 import (
 	"fmt"
+	"strings"
 	"sync/atomic"
 	"testing"
 	"time"
@@ -37,12 +38,13 @@ type probeRes struct {
 }
 
 type overlapOpts struct {
-	Gen       kit.GenOpts
-	BKinds    []string // kinds of operation B may be: close, close-ancestor, pclose, cancel, same-get, get, create
-	AKinds    []string // get, create, create-gatectx
-	GateKind  []int
-	ExtraWarm int                        // more warm-up resolutions (so that scopes own instances)
-	Prep      func(*kit.World, *rapid.T) // prepare the world before Build (fault plans)
+	Gen         kit.GenOpts
+	BKinds      []string // kinds of operation B may be: close, close-ancestor, pclose, cancel, same-get, get, create
+	AKinds      []string // get, create, create-gatectx
+	GateKind    []int
+	ExtraScopes int                        // larger scope trees
+	ExtraWarm   int                        // more warm-up resolutions (so that scopes own instances)
+	Prep        func(*kit.World, *rapid.T) // prepare the world before Build (fault plans)
 }
 
 func obsOfKind(r *kit.Runner, from int, kind string) *kit.Obs {
@@ -69,10 +71,13 @@ func genOverlap(rt *rapid.T, oo overlapOpts) *overlapCase {
 		return c
 	}
 	// a small scope tree
-	nsc := rapid.IntRange(1, 3).Draw(rt, "nscopes")
+	nsc := rapid.IntRange(1, 3+oo.ExtraScopes).Draw(rt, "nscopes")
 	for i := 0; i < nsc; i++ {
 		live := x.R.LiveScopes()
 		parent := rapid.SampledFrom(live).Draw(rt, "parent")
+		if x.R.Scopes[parent].Depth >= 3 {
+			parent = 0
+		}
 		x.exec(Op{Kind: "create", Scope: parent, Ctx: rapid.SampledFrom([]int{0, 1, 2}).Draw(rt, "ctx")})
 	}
 	// a few warm-up resolutions so that caches are partly filled
@@ -412,7 +417,7 @@ func TestC10Schedules(t *testing.T) {
 
 func TestC13Schedules(t *testing.T) {
 	oo := overlapOpts{Gen: dispOpts(), AKinds: []string{"get", "get", "create", "create-gatectx", "close", "close"}, BKinds: []string{"close", "close-ancestor", "pclose", "cancel"},
-		GateKind: allGates, ExtraWarm: 3}
+		GateKind: allGates, ExtraWarm: 6, ExtraScopes: 4}
 	runOverlapTest(t, "C13", "controlled-schedules",
 		"controlled two-thread programs: thread A issues Get*/CreateScope and is parked at the n-th constructor entry/exit it reaches (initializers included) or inside ctx.Done() of the context handed to CreateScope; or A closes a scope and is parked inside an instance's Close(); thread B runs one Close (A's scope, an ancestor, the provider) or a context cancellation to completion or until it blocks; if B's Close returned while A is still parked, every scope it covers is probed and must already refuse use; A is released; oracle: no panic, no hang (20 s), A returns fully constructed values or an error satisfying errors.Is(ErrScopeDisposed/ErrProviderDisposed), probes report the disposed error; non-trivial = A was parked",
 		oo,
@@ -424,7 +429,7 @@ func TestC13Schedules(t *testing.T) {
 
 func closeOverlapOpts() overlapOpts {
 	return overlapOpts{Gen: dispOpts(), AKinds: []string{"close"}, BKinds: []string{"close-ancestor", "close-ancestor", "pclose", "cancel"},
-		GateKind: []int{kit.GateCloseEnter}, ExtraWarm: 5,
+		GateKind: []int{kit.GateCloseEnter}, ExtraWarm: 6, ExtraScopes: 4,
 		Prep: func(w *kit.World, rt *rapid.T) {
 			regs := map[int]bool{}
 			for _, r := range w.Cfg.Regs {
@@ -470,3 +475,221 @@ func TestC12Schedules(t *testing.T) {
 		},
 		func(c *overlapCase) bool { return true })
 }
+
+// ---- multi-thread controlled programs with a fault plan (C02, C09) ----
+
+type mthread struct {
+	Op       Op
+	GateKind int // 0 = never parks
+	GateN    int
+	pk       *kit.Parker
+	goid     atomic.Int64
+	count    int
+	done     chan struct{}
+}
+
+type mcase struct {
+	X       *run
+	Threads []*mthread
+	Actions []string // "start i" / "release i"
+	Fault   string
+	Hang    string
+	Parked  int
+	Desc    string
+}
+
+// genMulti builds and runs a program of 2-3 threads whose starts and releases
+// are interleaved in a generated order; one constructor invocation may fail.
+func genMulti(rt *rapid.T, gen kit.GenOpts) *mcase {
+	cfg := kit.GenConfig(rt, gen)
+	var faultKey [2]int
+	var flt kit.Fault
+	x, err := startRunWith(cfg, nil, nil)
+	if err != nil {
+		rt.Fatal(err)
+	}
+	c := &mcase{X: x}
+	if x.Build.Err != nil || x.Build.Panic != nil {
+		return c
+	}
+	for i := rapid.IntRange(1, 3).Draw(rt, "nscopes"); i > 0; i-- {
+		x.exec(Op{Kind: "create", Scope: rapid.SampledFrom(x.R.LiveScopes()).Draw(rt, "parent"), Ctx: rapid.SampledFrom([]int{0, 1}).Draw(rt, "ctx")})
+	}
+	ids := identPool(x.M, false)
+	var ctorIDs []kit.Ident
+	for _, id := range ids {
+		if ow, ok := x.M.Owner(id); ok {
+			if r := x.M.Regs[ow.Reg]; r.Life == kit.Scoped && r.Form != kit.FormInstance {
+				ctorIDs = append(ctorIDs, id)
+			}
+		}
+	}
+	if len(ctorIDs) == 0 {
+		return c
+	}
+	live := x.R.LiveScopes()
+	tag := rapid.SampledFrom(live).Draw(rt, "tag")
+	first := Op{Kind: "get", Scope: tag, Ident: rapid.SampledFrom(ctorIDs).Draw(rt, "id0")}
+	nth := rapid.IntRange(2, 3).Draw(rt, "threads")
+	for i := 0; i < nth; i++ {
+		th := &mthread{Op: first, done: make(chan struct{})}
+		if i > 0 && rapid.IntRange(0, 9).Draw(rt, "same") >= 6 {
+			th.Op = Op{Kind: "get", Scope: rapid.SampledFrom(live).Draw(rt, "tagN"), Ident: rapid.SampledFrom(ids).Draw(rt, "idN")}
+		}
+		if rapid.IntRange(0, 9).Draw(rt, "gated") < 7 {
+			th.GateKind = rapid.SampledFrom(allGates).Draw(rt, "gk")
+			th.GateN = rapid.SampledFrom([]int{1, 1, 1, 2}).Draw(rt, "gn")
+		}
+		c.Threads = append(c.Threads, th)
+	}
+	// fault plan: one invocation of the registration behind the first op (or another one) fails
+	if rapid.IntRange(0, 9).Draw(rt, "faulty") < 6 {
+		ow, _ := x.M.Owner(first.Ident)
+		reg := x.M.Regs[ow.Reg]
+		if rapid.IntRange(0, 9).Draw(rt, "faultOther") >= 7 {
+			reg = x.M.Regs[rapid.SampledFrom(x.M.Order).Draw(rt, "faultReg")]
+		}
+		if reg.Form != kit.FormInstance {
+			faultKey = [2]int{reg.ID, x.W.Count[reg.ID] + rapid.IntRange(1, 2).Draw(rt, "faultNth")}
+			flt = faultFor(reg, rapid.IntRange(0, 2).Draw(rt, "faultVariant"))
+			x.W.Faults[faultKey] = flt
+			c.Fault = fmt.Sprintf("r%d#%d kind %d", faultKey[0], faultKey[1], flt.Kind)
+		}
+	}
+	// interleaving of starts and releases: a permutation with start(i) before release(i)
+	var acts []string
+	for i := range c.Threads {
+		acts = append(acts, fmt.Sprintf("start %d", i), fmt.Sprintf("release %d", i))
+	}
+	acts = rapid.Permutation(acts).Draw(rt, "actions")
+	pos := map[string]int{}
+	for i, a := range acts {
+		pos[a] = i
+	}
+	for i := range c.Threads {
+		s, r := fmt.Sprintf("start %d", i), fmt.Sprintf("release %d", i)
+		if pos[s] > pos[r] {
+			acts[pos[s]], acts[pos[r]] = r, s
+			pos[s], pos[r] = pos[r], pos[s]
+		}
+	}
+	c.Actions = acts
+	// run
+	for _, th := range c.Threads {
+		th := th
+		th.pk = kit.NewParker(func(gp kit.GatePoint) bool {
+			if th.GateKind == 0 || gp.Kind != th.GateKind {
+				return false
+			}
+			th.count++
+			return th.count == th.GateN
+		})
+	}
+	x.W.SetGate(func(gp kit.GatePoint) {
+		for _, th := range c.Threads {
+			if gp.Goid == th.goid.Load() {
+				th.pk.Gate(gp)
+				return
+			}
+		}
+	})
+	settle := func(th *mthread) {
+		select {
+		case <-th.pk.Parked():
+		case <-th.done:
+		case <-time.After(25 * time.Millisecond):
+		}
+	}
+	for _, a := range acts {
+		var kind string
+		var i int
+		fmt.Sscanf(a, "%s %d", &kind, &i)
+		th := c.Threads[i]
+		if kind == "start" {
+			go func() {
+				defer close(th.done)
+				th.goid.Store(kit.Goid())
+				x.exec(th.Op)
+			}()
+			settle(th)
+		} else {
+			th.pk.Release()
+			kit.WaitOrTimeout(th.done, 25*time.Millisecond)
+		}
+	}
+	for _, th := range c.Threads {
+		th.pk.Release()
+	}
+	for i, th := range c.Threads {
+		if th.pk.WasHit() {
+			c.Parked++
+		}
+		if !kit.WaitOrTimeout(th.done, 20*time.Second) {
+			c.Hang = fmt.Sprintf("thread %d (%s) did not return within 20 s", i, th.Op)
+			return c
+		}
+	}
+	x.W.SetGate(nil)
+	x.W.ClearFaults()
+	x.exec(Op{Kind: "pclose"})
+	var td []string
+	for i, th := range c.Threads {
+		td = append(td, fmt.Sprintf("T%d: %s gate(kind %d #%d)", i, th.Op, th.GateKind, th.GateN))
+	}
+	c.Desc = fmt.Sprintf("config: %s\nthreads: %s\nactions: %v\nfault: %s", cfg, strings.Join(td, " | "), acts, c.Fault)
+	return c
+}
+
+func runMultiTest(t *testing.T, prop string) {
+	col := evid.New(prop, "multi-thread-schedules", "controlled programs of 2-3 threads, mostly resolving the same scoped identity in the same scope, each optionally parked at the n-th constructor entry/exit it reaches; the starts and releases of the threads are interleaved in a generated order (a thread may arrive while another is parked, blocked on it, or already released), and one constructor invocation of the contested registration (or another) fails with an error, panic or nil; oracle: no panic, no hang, C02 ledger oracle (at most one instance of a scoped registration reaches anybody per scope, everybody holds the same one; a failed construction yields none and the next resolver retries) and C10 exactly-once disposal; non-trivial = >=2 threads were actually parked or a fault fired while another thread was waiting")
+	defer col.Flush()
+	rapid.Check(t, func(rt *rapid.T) {
+		g := dispOpts()
+		g.Lifetimes = []int{kit.Singleton, kit.Scoped, kit.Scoped, kit.Scoped, kit.Transient}
+		c := genMulti(rt, g)
+		if c.Desc == "" && c.Hang == "" {
+			col.Case(false, c.X.Cfg.String(), nil, "not-run")
+			return
+		}
+		var f *Failure
+		if c.Hang != "" {
+			f = fail(prop, "no-hang", "multi", "%s", c.Hang)
+		}
+		if f == nil {
+			for _, o := range c.X.R.Obs {
+				if o.Panic != nil {
+					f = fail(prop, "no-panic", "multi/"+o.Kind, "%s(s%d,%s) panicked: %v", o.Kind, o.Scope, o.Ident, o.Panic)
+				}
+			}
+		}
+		if f == nil {
+			obs, _ := c.X.observations()
+			if g := c.X.checkC02(obs); g != nil {
+				f = g
+				if prop != "C02" {
+					f = fail(prop, "lifetime-rules", g.Oracle+"/"+g.Sig, "%s", g.Msg)
+				}
+			}
+		}
+		if f == nil {
+			if g := c.X.checkC10(true); g != nil {
+				f = fail(prop, "lifetime-rules", g.Oracle+"/"+g.Sig, "%s", g.Msg)
+			}
+		}
+		labels := []string{fmt.Sprintf("threads=%d", len(c.Threads)), fmt.Sprintf("parked=%d", c.Parked)}
+		if c.Fault != "" {
+			labels = append(labels, "fault")
+		}
+		if f != nil && isKnown(f) {
+			col.Excluded()
+			return
+		}
+		col.Case(c.Parked >= 2 || (c.Parked >= 1 && c.Fault != ""), c.Desc, c.Desc, labels...)
+		if f != nil {
+			rt.Fatalf("VIOLATION %s\n%s", f, c.Desc)
+		}
+	})
+}
+
+func TestC02MultiSchedules(t *testing.T) { runMultiTest(t, "C02") }
+func TestC09MultiSchedules(t *testing.T) { runMultiTest(t, "C09") }
